@@ -33,3 +33,26 @@ def modelDown (g : Globals) (old new : List Stmt) : M (List Stmt) := do
   pure ss.flatten
 
 end Sqlize
+
+namespace Sqlize
+
+/-- `Sqlize.FromString`: the dialect's third-party parser runs on the whole text first (`parsed` is its outcome, an
+    assumption-free parameter); only an accepted text is handed to the reader glue.  On a syntax error the error is
+    returned and the model is the one passed in.  (That the Go functions parse before they edit is a regenerated fact:
+    `Facts.parseBeforeEdit`.) -/
+def fromString (g : Globals) (m : Migration) (parsed : Except String (List Stmt)) : Migration × Option String :=
+  match parsed with
+  | .error e => (m, some e)
+  | .ok ss =>
+    match readScript g m ss with
+    | .ok m' => (m', none)
+    | .error e => (m, some ("panic: " ++ e))
+
+/-- loading a script in several calls -/
+def runCalls (m : Migration) : List (List Stmt) → M Migration
+  | [] => pure m
+  | c :: rest => do
+    let m' ← ReaderMysql.run m c
+    runCalls m' rest
+
+end Sqlize
